@@ -18,6 +18,10 @@ def main(argv):
     if argv[1] == "--replay":
         with open(argv[2]) as f:
             rec = json.load(f)
+        if "harness_job" in rec["detail"]:
+            print(f"    recorded outside a judged call (job {rec['detail']['harness_job']}): re-run `bin/check {pid} quick` to see it again")
+            print("REPRODUCED?:", rec.get("what", ""))
+            return 1
         texts = mod.replay(rec["detail"])
         for t in texts:
             print("REPRODUCED:", t)
